@@ -236,13 +236,11 @@ def activation_follows_verdict(ctx, rule='activation-follows-verdict'):
         else:
             r.fail(rule, 'activate#%d' % i, 'the session is marked activated on a path where the request\'s checks have not all passed', loc=c.loc)
     for i, c in enumerate(faults):
-        if any(b.dominates(o.bb, c.bb) for o in off):
+        after = b.reachable_blocks(c.target, stop={o.bb for o in off}) if c.target is not None else set()
+        later = c.target is not None and not any(rb in after and rb not in {o.bb for o in off} for rb in b.return_blocks())
+        if any(b.dominates(o.bb, c.bb) for o in off) or (off and later):
             r.ok(rule, 'fault#%d' % i, 'a refused activation leaves the session deactivated', loc=c.loc)
         else:
-            # a fault before the session was found at all (unknown token) has nothing to deactivate
-            sess = [x for x in b.calls() if re.search(r'find_session|SessionManager::', x.callee)]
-            if sess and not any(b.dominates(x.bb, c.bb) for x in sess) and False:
-                continue
             r.fail(rule, 'fault#%d' % i, 'activate_session answers with a ServiceFault without set_activated(false): a session activated earlier stays usable after a refused '
                    're-activation, and ordinary services keep being served for its token', loc=c.loc)
     if other:
